@@ -141,6 +141,8 @@ impl Runner {
                 "fu" => match ctor.as_str() {
                     "new" => Subject::Fu(FuturesUnordered::new()),
                     "from_iter" => Subject::Fu(init.iter().map(|c| SFut::new(*c)).collect()),
+                    // an iterator that under-reports its length (lower bound 0)
+                    "from_iter_lazy" => Subject::Fu(init.iter().filter(|_| true).map(|c| SFut::new(*c)).collect()),
                     _ => Subject::Fu(FuturesUnordered::with_capacity(cap)),
                 },
                 "fob" => {
@@ -158,6 +160,7 @@ impl Runner {
                     let mut q = match ctor.as_str() {
                         "new" => FuturesOrdered::new(),
                         "from_iter" => init.iter().map(|c| SFut::new(*c)).collect(),
+                        "from_iter_lazy" => init.iter().filter(|_| true).map(|c| SFut::new(*c)).collect(),
                         _ => FuturesOrdered::with_capacity(cap),
                     };
                     if let (Some(s), true) = (start, init.is_empty()) {
@@ -169,7 +172,7 @@ impl Runner {
                 "mb" => Subject::Mb(init.iter().map(|c| SStream::new(*c)).collect()),
                 "mu" => match ctor.as_str() {
                     "new" => Subject::Mu(MergeUnbounded::new()),
-                    "from_iter" => Subject::Mu(init.iter().map(|c| SStreamU::new(*c)).collect()),
+                    "from_iter" | "from_iter_lazy" => Subject::Mu(init.iter().filter(|_| true).map(|c| SStreamU::new(*c)).collect()),
                     _ => Subject::Mu(MergeUnbounded::verif_with_first_capacity(cap)),
                 },
                 "bu" => Subject::Bu(Box::pin(SUp::<SFut>::new().buffered_unordered(cap))),
